@@ -57,7 +57,13 @@ Scen ==
      [objs |-> << MkObj(1, 12, 4, 2, 5, 1, TRUE, 1, <<"delay", 1>>) >>,
       mode |-> "full", slots |-> 1, il |-> 1,
       script |-> << <<"add", 1>>, <<"publish">>, <<"drain">>, <<"adv", 2>>, <<"drain">>, <<"adv", 2>>, <<"drain">>,
-                    <<"adv", 2>>, <<"drain">> >>] >>
+                    <<"adv", 2>>, <<"drain">> >>],
+     \* 6: an object removed in the middle of its transfer (its next packet carries the close-object flag), another one
+     \*    sent normally afterwards: the partial object must end as interrupted, never complete
+     \*    (immediate stop allowed: without it the sender finishes the first transfer of a removed object)
+     [objs |-> << [MkObj(1, 16, 4, 2, 0, 0, TRUE, 1, <<"none", 0>>) EXCEPT !.imm = TRUE], MkObj(2, 8, 4, 2, 5, 1, FALSE, 1, <<"none", 0>>) >>,
+      mode |-> "full", slots |-> 1, il |-> 1,
+      script |-> << <<"add", 1>>, <<"publish">>, <<"readn", 4>>, <<"remove", 1>>, <<"add", 2>>, <<"publish">>, <<"drain">> >>] >>
 
 \* Variant names a deliberately broken rule of the sender or of the receiver mechanism (vacuity guard)
 SenderVariants == {"no-fdt-gate", "b-every-block", "lifo-queue", "no-start-check", "count-off-by-one", "desc-queues"}
@@ -67,6 +73,8 @@ SCfg(sc) == [mode |-> sc.mode, queues |-> << <<0, sc.slots>> >>, interleave |-> 
 
 VARIABLES sc, phase, s, t, pc, draining, wire, chan, pos, r, m, bad
 vars == <<sc, phase, s, t, pc, draining, wire, chan, pos, r, m, bad>>
+\* draining: 0 (no), -1 (until nothing is returned) or the number of reads left of a "readn" operation
+Removed == {Scen[sc].script[i][2] : i \in {j \in 1..Len(Scen[sc].script) : Scen[sc].script[j][1] = "remove"}}
 Sc == Scen[sc]
 Objs == Sc.objs
 
@@ -106,7 +114,9 @@ Sched(c) ==
     [] c[1] = "swap"  -> [i \in 1..N0 |-> IF i = c[2] THEN i + 1 ELSE IF i = c[2] + 1 THEN i - 1 ELSE i]
     [] c[1] = "dup"   -> [i \in 1..(N0 + 1) |-> IF i <= c[2] THEN i ELSE i - 1]
     [] c[1] = "join"  -> [i \in 1..(N0 - c[2] + 1) |-> i + c[2] - 1]
-FamOf(c) == CASE c[1] = "clean" -> "clean" [] c[1] = "lose" -> "subsets" [] c[1] = "dup" -> "dups" [] c[1] = "swap" -> "perms" [] c[1] = "join" -> "join"
+\* (a scenario with a removal is not a clean-channel delivery of everything that was added: C03 / C09 conjuncts only)
+FamOf(c) == IF Removed # {} /\ c[1] \in {"clean", "lose", "dup"} THEN "perms" ELSE
+            CASE c[1] = "clean" -> "clean" [] c[1] = "lose" -> "subsets" [] c[1] = "dup" -> "dups" [] c[1] = "swap" -> "perms" [] c[1] = "join" -> "join"
 
 \* ---- events as the harness records them (same as MC_Receiver) -------------------------------------------------
 RCfg == [once |-> TRUE, expiry |-> TRUE, max_cache |-> -1, max_err |-> 0, obj_to |-> -1, sess_to |-> -1, filtering |-> FALSE,
@@ -135,24 +145,28 @@ Feed(mm, e) == <<Viol(Sess, mm, e), Step(Sess, mm, e)>>
 
 \* ---- composition ----------------------------------------------------------------------------------------------------
 Init == /\ sc \in ScenSet
-        /\ phase = "send" /\ s = SX!InitState(SCfg(Scen[sc]), Scen[sc].objs) /\ t = 0 /\ pc = 1 /\ draining = FALSE /\ wire = <<>>
+        /\ phase = "send" /\ s = SX!InitState(SCfg(Scen[sc]), Scen[sc].objs) /\ t = 0 /\ pc = 1 /\ draining = 0 /\ wire = <<>>
         /\ chan = <<"none", 0>> /\ pos = 0 /\ r = <<>> /\ m = <<>> /\ bad = <<>>
 
 SendStep ==
   /\ phase = "send" /\ pc <= Len(Sc.script)
   /\ LET op == Sc.script[pc] IN
-     IF draining THEN
-        LET s1 == SX!Read(s, t, [id \in 0..(SX!IdMod - 1) |-> FdtLen]) IN
+     IF draining # 0 THEN
+        LET s1 == SX!Read(s, t, [id \in 0..(SX!IdMod - 1) |-> FdtLen])
+            left == IF draining = -1 THEN -1 ELSE draining - 1 IN
         /\ s' = s1
-        /\ IF s1.out.k = "none" THEN draining' = FALSE /\ pc' = pc + 1 /\ wire' = wire
-           ELSE draining' = TRUE /\ pc' = pc /\ wire' = Append(wire, WirePkt(s1.out, t, Len(wire) + 1))
+        /\ IF s1.out.k = "none" THEN draining' = 0 /\ pc' = pc + 1 /\ wire' = wire
+           ELSE /\ wire' = Append(wire, WirePkt(s1.out, t, Len(wire) + 1))
+                /\ IF left = 0 THEN draining' = 0 /\ pc' = pc + 1 ELSE draining' = left /\ pc' = pc
         /\ t' = t
      ELSE
         /\ wire' = wire
-        /\ CASE op[1] = "add"     -> s' = SX!AddObject(s, op[2]) /\ pc' = pc + 1 /\ draining' = FALSE /\ t' = t
-             [] op[1] = "publish" -> s' = SX!Publish(s, t) /\ pc' = pc + 1 /\ draining' = FALSE /\ t' = t
-             [] op[1] = "adv"     -> s' = s /\ pc' = pc + 1 /\ draining' = FALSE /\ t' = t + op[2]
-             [] op[1] = "drain"   -> s' = s /\ pc' = pc /\ draining' = TRUE /\ t' = t
+        /\ CASE op[1] = "add"     -> s' = SX!AddObject(s, op[2]) /\ pc' = pc + 1 /\ draining' = 0 /\ t' = t
+             [] op[1] = "publish" -> s' = SX!Publish(s, t) /\ pc' = pc + 1 /\ draining' = 0 /\ t' = t
+             [] op[1] = "adv"     -> s' = s /\ pc' = pc + 1 /\ draining' = 0 /\ t' = t + op[2]
+             [] op[1] = "drain"   -> s' = s /\ pc' = pc /\ draining' = -1 /\ t' = t
+             [] op[1] = "readn"   -> s' = s /\ pc' = pc /\ draining' = op[2] /\ t' = t
+             [] op[1] = "remove"  -> s' = SX!RemoveObject(s, op[2]) /\ pc' = pc + 1 /\ draining' = 0 /\ t' = t
   /\ UNCHANGED <<sc, phase, chan, pos, r, m, bad>>
 
 \* the script is over: pick a channel
